@@ -102,6 +102,16 @@ def splitPoly2 (args : List Int) : Option (Nat × Nat × Nat × List Nat × List
 
 def mulOracleLimit : Nat := 10   -- schoolbook oracle for n ≤ 1024
 
+/-- above the schoolbook limit: the exact coefficient formula on a sample of positions (first, last, around n/2 and
+a few spread ones) -/
+def sampledProductOk (p k : Nat) (xs ys : List Nat) (impl : List Int) : Bool :=
+  let n := 2 ^ k
+  let A := xs.toArray
+  let B := ys.toArray
+  let I := impl.toArray
+  let pos := [0, 1, n / 2 - 1, n / 2, n - 2, n - 1, n / 3, (2 * n) / 3, n / 5, (7 * n) / 9]
+  pos.all fun c => I.getD c (-1) == (Spec.negacyclicCoeffNat p A B n c : Int)
+
 def nttHandlers2 : List (String × Handler) := [
   -- inv( fwd(a) ⊙ fwd(b) ), ⊙ = mulmod : spec = schoolbook negacyclic product
   ("mulntt", {
@@ -116,7 +126,7 @@ def nttHandlers2 : List (String × Handler) := [
       let (w, cm, k, xs, ys) ← liftOpt (splitPoly2 a)
       let r ← liftOpt (rowOf w cm)
       if k ≤ mulOracleLimit then pure (impl == ints (Spec.negacyclicNat r.p xs ys))
-      else pure (allLt r.p impl) }),
+      else pure (allLt r.p impl && sampledProductOk r.p k xs ys impl) }),
   -- same with the Shoup product: fwd(a) ⊙ fwd(b) via compute_shoup(fwd(b))
   ("mulnttshoup", {
     run := fun a => OptionT.run do
@@ -131,7 +141,7 @@ def nttHandlers2 : List (String × Handler) := [
       let (w, cm, k, xs, ys) ← liftOpt (splitPoly2 a)
       let r ← liftOpt (rowOf w cm)
       if k ≤ mulOracleLimit then pure (impl == ints (Spec.negacyclicNat r.p xs ys))
-      else pure (allLt r.p impl) }),
+      else pure (allLt r.p impl && sampledProductOk r.p k xs ys impl) }),
   -- fwd(a+b) = fwd(a)+fwd(b): line carries a, b, result fwd(a+b); spec compares with model fwd(a) ⊕ fwd(b)
   ("nttlin", {
     run := fun a => OptionT.run do
@@ -145,6 +155,24 @@ def nttHandlers2 : List (String × Handler) := [
       let fa := nttPowPhi w r.p k t xs
       let fb := nttPowPhi w r.p k t ys
       pure (impl == ints (Spec.pointwise (fun x y => (x + y) % r.p) fa fb)) })
+]
+
+/-- `permtab k => P(0) … P(2^k-1)`: the permutation applied by `permut<2^k>::compute` -/
+def permHandlers : List (String × Handler) := [
+  ("permtab", {
+    run := fun a => match a with
+      | [k] => pure (some { model := ints ((List.range (2 ^ k.toNat)).map (bitrevCode k.toNat)), specOk := true, cls := s!"k={k}" })
+      | _ => pure none,
+    -- spec: an involutive permutation that reverses the k-bit index: P(P(i)) = i and P(2^j) = 2^(k-1-j)
+    spec := fun a impl => match a with
+      | [k] =>
+        let k := k.toNat
+        let arr := impl.toArray
+        let n := 2 ^ k
+        pure (some (arr.size == n &&
+          (List.range k).all (fun j => arr.getD (2 ^ j) (-1) == ((2 ^ (k - 1 - j) : Nat) : Int)) &&
+          (List.range n).all (fun i => let pi := arr.getD i (-1); 0 ≤ pi && pi < n && arr.getD pi.toNat (-1) == (i : Int))))
+      | _ => pure none })
 ]
 
 /-- table dumps: `tab <which> w cm k => entries` ; which: 0 phis 1 shoupphis 2 invphis 3 shoupinvphis
